@@ -67,6 +67,24 @@ def rand_message(rng, kind=None, version=None, big=False):
     return m
 
 
+def minimal_messages(rng):
+    """every empty / non-empty combination of the variable-length fields, for every version class: the encodings whose
+    size is exactly the fixed part (or the fixed part plus one field) sit on the decoder's length-guard boundaries"""
+    out = []
+    for v in [0, 1, 2, 3, 4, 5, 255]:
+        for mask in range(8):
+            m = rand_message(rng, 0, v)
+            m["endpoint"] = rbytes(rng, rng.choice([1, 2, 21])) if mask & 1 else []
+            m["manifest"] = rbytes(rng, rng.choice([1, 3, 90])) if mask & 2 else []
+            m["shards"] = rbytes(rng, rng.choice([1, 2, 255])) if mask & 4 else []
+            out.append((m, f"min:k0v{v}m{mask}"))
+        for ln in (0, 1):
+            m = rand_message(rng, 2, v)
+            m["data"] = rbytes(rng, ln)
+            out.append((m, f"min:k2v{v}l{ln}"))
+    return out
+
+
 def lp(b):
     return [len(b)] + list(b)
 
